@@ -5,6 +5,7 @@ package pubsub
 
 import (
 	"container/heap"
+	"context"
 	"crypto/sha256"
 	"encoding/binary"
 	"encoding/hex"
@@ -563,3 +564,5 @@ func shortPeer(p peer.ID) string {
 }
 
 func synctestWait() { synctest.Wait() }
+
+func (s *sim) bgctx() context.Context { return context.Background() }
